@@ -27,7 +27,7 @@ THEOREMS = ["spans_cover_once", "spans_cover_once'", "partition_cover_once", "sp
             "balance_marginal_split", "pipeline_reduce_eq_whole", "balanceReduce_eq_whole",
             "balance_data_only", "code_chunkings_cover",
             "local_binarize", "local_zeroDiags", "local_zeroTrans", "local_zeroCis", "local_timesOuter"]
-LEVELS = {"partition_unit": "unit", "spans_unit": "unit", "pipeline": "top", "balance_schedules": "top", "cli": "top"}
+LEVELS = {"partition_unit": "unit", "spans_unit": "unit", "pipeline": "top", "pipe_reuse": "top", "balance_schedules": "top", "cli": "top"}
 DESCRIBE = {
     "partition_unit": "cooler.util.partition(lo, hi, step) vs Lean `partition` and the contract `CoversOnce` (theorem partition_coversOnce)",
     "spans_unit": "the spans every pass of the real balance_cooler(chunksize=c) hands to its map (recorded), and split(clr, chunksize=c).keys: "
@@ -35,6 +35,9 @@ DESCRIBE = {
     "pipeline": "split(clr, spans, map).prepare(_init).pipe(filters).pipe(_timesouterproduct, w).pipe(_marginalize).reduce(add, zeros) on integer "
                 "data and dyadic weights, under a map functor/schedule, bit for bit vs Lean `wholeMarginal` (theorem pipeline_reduce_eq_whole); "
                 "visit log of the pixel rows read: each stored pixel exactly once (Lean `coversOnceB`)",
+    "pipe_reuse": "one split() with keys given as chunksize=k (partition generator), list, tuple, generator or iterator of spans, then reduced, "
+                  "branched into a second pipe (nnz marginal), reduced again, gathered and iterated: every run maps over covering spans, reads "
+                  "every stored pixel once and returns Lean `wholeMarginal` / the per-chunk arrays of Lean `run`, bit for bit",
     "balance_schedules": "cooler.balance_cooler(chunksize=c, map=m) vs the chunksize=None/builtin-map run of the same cooler and options: NaN masks "
                          "and converged identical, weights/scale/var to 1e-9 relative, repeated runs identical; every pass's spans meet `CoversOnce`",
     "cli": "`cooler balance -p N --force` (Pool.imap_unordered) on a scratch copy vs the API reference run",
@@ -89,7 +92,13 @@ def _mk(case):
                         "bin2_id": np.array([p[1] for p in px], dtype=np.int64),
                         "count": np.array([p[2] for p in px], dtype=np.int32)})
     path = os.path.join(gen.tmpdir(), f"c11-{os.getpid()}-{next(_COUNTER)}.cool")
-    cooler.create_cooler(path, df, pdf, ordered=True)
+    k = int(case.get("fshift", 0))
+    if k:
+        # float64 count column holding v * 4**-k (exact, dyadic; values below 1): the stored matrix is s*A, s = 4**-k
+        pdf["count"] = np.array([p[2] for p in px], dtype=np.float64) / float(4 ** k)
+        cooler.create_cooler(path, df, pdf, ordered=True, dtypes={"count": np.float64})
+    else:
+        cooler.create_cooler(path, df, pdf, ordered=True)
     return path, cooler.Cooler(path)
 
 
@@ -219,6 +228,12 @@ class _VisitLog:
         open(_VISIT_LOG, "w").close()
         parallel.get = _logging_get
         return self
+
+    def take(self):
+        """rows logged so far; the log is emptied (several runs under one wrapper, incl. forked pool workers)"""
+        rows = self.read()
+        open(_VISIT_LOG, "w").close()
+        return rows
 
     def read(self):
         rows = []
@@ -432,7 +447,9 @@ def _pipeline(case):
                       perm=list(reversed(range(nsp))), lo=lo, hi=hi)
     if model["covers"] and model["reduced"] != model["whole"]:
         raise AssertionError("L1 != L0: theorem balanceReduce_eq_whole contradicted")
-    eff_shift = 0 if w is None else shift
+    # data scale: weights contribute 4**-shift; a float column contributes 4**-fshift unless _binarize replaced the
+    # values by 0/1 (a stored value is non-zero iff its integer is)
+    eff_shift = (0 if w is None else shift) + (0 if any(f["f"] == "binarize" for f in case["filters"]) else int(case.get("fshift", 0)))
     out = {}
     for label, arr in results:
         if not _exact(np.asarray(arr, dtype=float), model["whole"], eff_shift):
@@ -449,6 +466,106 @@ def _pipeline(case):
     if out:
         return out
     return {"stats": {"schedules": len(results), "chunks": nsp, "reads": len(visits)}}
+
+
+KEY_FORMS = ("default", "list", "tuple", "generator", "iterator")
+
+
+def _int_vec(arr, shift):
+    """float array * 4**shift as exact integers, or None if some entry is not such a multiple"""
+    den = 4 ** shift
+    out = []
+    for x in np.asarray(arr, dtype=float):
+        x = float(x)
+        if x != x or x in (float("inf"), float("-inf")):
+            return None
+        f = Fraction(x) * den
+        if f.denominator != 1:
+            return None
+        out.append(int(f))
+    return out
+
+
+def _pipe_reuse(case):
+    """ONE split() — keys spelled as the default chunking (`chunksize=k`: the generator of util.partition), a list, a tuple,
+    a generator or an iterator of the spans balance_cooler builds — then used the way the pipeline API allows: reduce, a
+    second branch off the same base (the nnz marginal), the first pipe again, gather, iteration.  Every run must hand its
+    map spans that cover the table once (Lean `CoversOnce`), read every stored pixel exactly once (visit log) and return
+    the whole marginal (Lean `wholeMarginal`) / the per-chunk arrays (Lean `run`), bit for bit."""
+    from operator import add
+    px = case["pixels"]
+    nnz = len(px)
+    chrom = _chrom_of_bins(case["chroms"])
+    n_bins = len(chrom)
+    cs, kind, form = case["chunksize"], case["map"], case["keys"]
+    fk = int(case.get("fshift", 0))
+    fA = list(case["filters"])
+    fB = [{"f": "binarize"}] + fA
+    path, clr = _mk(case)
+    log = []
+    try:
+        keys = None
+        if form != "default":
+            try:
+                spans = _recorded_passes(clr, cs, False)[0]
+            except Exception as e:  # noqa
+                return {"mismatch": True, "impl_raised": errclass(e), "message": str(e)[:200], "where": "balance_cooler building its spans"}
+            keys = [(np.int64(a), np.int64(b)) for a, b in spans]
+        with _VisitLog() as vl:
+            with _MapCtx(kind, case.get("nproc", 2), case.get("seed", 0)) as m:
+                rec = RecMap(m)
+                try:
+                    if form == "default":
+                        base = parallel.split(clr, map=rec, chunksize=cs, use_lock=False)
+                    else:
+                        given = {"list": lambda: list(keys), "tuple": lambda: tuple(keys),
+                                 "generator": lambda: (k for k in keys), "iterator": lambda: iter(keys)}[form]()
+                        base = parallel.split(clr, map=rec, spans=given, use_lock=False)
+                    base = base.prepare(_B._init)
+                    A = base.pipe(_impl_filters(fA)).pipe(_B._marginalize)
+                    B = base.pipe(_impl_filters(fB)).pipe(_B._marginalize)
+                    for label, dp, fs, how in (("first pipe, reduce", A, fA, "reduce"), ("second branch of the same split(), reduce", B, fB, "reduce"),
+                                               ("first pipe again, reduce", A, fA, "reduce"), ("second branch, gather", B, fB, "gather"),
+                                               ("first pipe, iteration", A, fA, "iter")):
+                        n0 = len(rec.passes)
+                        if how == "reduce":
+                            res = dp.reduce(add, np.zeros(n_bins))
+                        elif how == "gather":
+                            res = list(dp.gather())
+                        else:
+                            res = list(iter(dp))
+                        log.append((label, fs, how, res, rec.passes[n0:], vl.take()))
+                except Exception as e:  # noqa  the modelled pipeline is total and re-runnable
+                    return {"mismatch": True, "impl_raised": errclass(e), "message": str(e)[:200], "where": "split/prepare/pipe/run",
+                            "completed_runs": [x[0] for x in log]}
+    finally:
+        _rm(path)
+    for label, fs, how, res, calls, visits in log:
+        eff = 0 if any(f["f"] == "binarize" for f in fs) else fk
+        seen = [k for c in calls for k in c]
+        model = drv().ask("C11.marginal", n=n_bins, chrom=chrom, pixels=px, filters=fs, spans=seen,
+                          perm=list(range(len(seen))), lo=0, hi=nnz)
+        if model["covers"] and model["reduced"] != model["whole"]:
+            raise AssertionError("L1 != L0: theorem balanceReduce_eq_whole contradicted")
+        bad = {}
+        if len(calls) != 1 or not model["covers"]:
+            bad["keys_handed_to_map"] = calls
+            bad["note_keys"] = "the run must map once over spans that cover the table exactly once"
+        if how == "reduce":
+            if not _exact(np.asarray(res, dtype=float), model["whole"], eff):
+                bad.update({"impl": [float(x) for x in np.asarray(res, dtype=float)], "expected_times_4^shift": model["whole"], "shift": eff})
+        else:
+            got = [_int_vec(r, eff) for r in res]
+            if any(g is None for g in got) or sorted(got) != sorted(model["chunks"]) or (model["covers"] and len(got) != len(seen)):
+                bad.update({"impl_chunks": [[float(x) for x in np.asarray(r, dtype=float)] for r in res], "model_chunks_times_4^shift": model["chunks"],
+                            "shift": eff})
+        vc = drv().ask("C11.covers", n=nnz, spans=[[a, a + n] for a, _b, n in visits], lo=0, hi=nnz)
+        if not vc["covers"]:
+            bad.update({"visit_log(lo,hi,rows)": visits, "visits_per_row": vc["visits"],
+                        "note_visits": "each stored pixel row must be read exactly once in every run"})
+        if bad:
+            return dict({"mismatch": True, "run": label, "keys_given_as": form}, **bad)
+    return {"stats": {"runs": len(log)}}
 
 
 # ----------------------------------------------------------------------------------------------
@@ -535,20 +652,41 @@ def _ser(r):
             "scale": [None if np.isnan(x) else float(x) for x in r[3]], "var": [None if np.isnan(x) else float(x) for x in r[4]]}
 
 
+def _unscale(r, fk, rescaled):
+    """outputs for the matrix s*A (s = 4**-fk) expressed for A: rescaled weights w/sqrt(s) -> w, scale s*m -> m, var s^2*v -> v"""
+    if r[0] != "ok":
+        return r
+    return ("ok", r[1] / float(2 ** fk) if rescaled else r[1], r[2], r[3] * float(4 ** fk), r[4] * float(16 ** fk))
+
+
 def _balance_schedules(case):
     px = case["pixels"]
     nnz = len(px)
     chrom = _chrom_of_bins(case["chroms"])
     opts, cs, kind = case["opts"], case["chunksize"], case["map"]
-    path, clr = _mk(case)
+    fk = int(case.get("fshift", 0))
+    path, clr = _mk(dict(case, fshift=0))
+    path2 = None
     try:
         ref = _run_balance(clr, opts, None, map)
+        clr2, opts2 = clr, opts
+        if fk:
+            # the same matrix stored as float64 s*A, s = 4**-fk (every value below 1): power-of-two scaling commutes with
+            # every float operation of the procedure, so with the two absolute thresholds scaled alike (min_count by s,
+            # tol by s*s: var is quadratic) every decision is the same and the outputs are the reference's, rescaled
+            path2, clr2 = _mk(case)
+            sc = float(4 ** fk)
+            opts2 = dict(opts, min_count=opts["min_count"] / sc, tol=opts["tol"] / (sc * sc))
         with _MapCtx(kind, case.get("nproc", 2), case.get("seed", 0)) as m:
             rec = RecMap(m)
-            got = _run_balance(clr, opts, cs, rec)
-            got2 = _run_balance(clr, opts, cs, m)
+            got = _run_balance(clr2, opts2, cs, rec)
+            got2 = _run_balance(clr2, opts2, cs, m)
     finally:
         _rm(path)
+        if path2:
+            _rm(path2)
+    if fk:
+        got, got2 = _unscale(got, fk, opts.get("rescale_marginals", True)), _unscale(got2, fk, opts.get("rescale_marginals", True))
     d = _diff(ref, got)
     if d is None:
         d2 = _diff(got, got2, exact=kind in ORDERED_KINDS)
@@ -611,7 +749,7 @@ def _cli(case):
     return None
 
 
-CHECKS = {"partition_unit": _partition_unit, "spans_unit": _spans_unit, "pipeline": _pipeline,
+CHECKS = {"partition_unit": _partition_unit, "spans_unit": _spans_unit, "pipeline": _pipeline, "pipe_reuse": _pipe_reuse,
           "balance_schedules": _balance_schedules, "cli": _cli}
 
 
